@@ -33,6 +33,10 @@ use tensor_vault::{AttenuationPolicy, Permission, Vault, VaultConfig, VaultError
 /// (and subtracted from the earliest possible one before it is treated as certainly live)
 const MARGIN: Duration = Duration::from_millis(30);
 const MAX_VIOLATIONS_PER_PROGRAM: usize = 6;
+/// a TTL table that went through persist -> reopen is rebuilt from wall-clock stamps taken with two
+/// separate clock reads; on a loaded machine the reloaded deadline may sit later than the original by
+/// the preemption between those reads. Grants that crossed a reopen get this much extra don't-care.
+const REOPEN_SLACK: Duration = Duration::from_millis(150);
 static SEEN_SIGNATURES: std::sync::OnceLock<std::sync::Mutex<HashMap<String, u32>>> = std::sync::OnceLock::new();
 
 // ------------------------------------------------------------------------------------------------
@@ -436,6 +440,10 @@ struct Prog<'a> {
     scratch: &'a std::path::Path,
     short_ttl_pending: Vec<Instant>, // latest possible expiry instants of short TTL grants
     last_ttl_pair: Option<(String, usize)>,
+    cfg: VaultConfig,
+    password: Vec<u8>,
+    /// the vault could not be reopened / re-keyed: the program cannot continue
+    dead: bool,
 }
 
 impl<'a> Prog<'a> {
@@ -729,6 +737,9 @@ impl<'a> Prog<'a> {
             4,  // 16 wait past TTL
             6,  // 17 get_permission
             2,  // 18 foreign / MEMBER edge onto a secret node
+            2,  // 19 rotate_master_key
+            3,  // 20 restart: reopen the vault on the same store + graph
+            2,  // 21 rotate_master_key immediately followed by a restart
         ];
         let k = self.rng.weighted(&w);
         match k {
@@ -1047,23 +1058,13 @@ impl<'a> Prog<'a> {
                     self.r.count("edges_removed", 1);
                 }
             }
-            16 => {
-                // wait until every short TTL granted so far is certainly over
-                if let Some(&latest) = self.short_ttl_pending.iter().max() {
-                    let until = latest + MARGIN + Duration::from_millis(5);
-                    let now = Instant::now();
-                    if until > now {
-                        std::thread::sleep(until - now);
-                    }
-                    self.short_ttl_pending.clear();
-                    self.trace.push("wait-past-ttl".into());
-                    self.r.count("ttl_waits", 1);
-                    // probe the pair that held the TTL grant with an operation that matters
-                    if let Some((who, i)) = self.last_ttl_pair.clone() {
-                        for _ in 0..(1 + self.rng.below(2)) {
-                            self.probe(&who, i);
-                        }
-                    }
+            16 => self.op_wait(),
+            19 => self.op_rotate_master_key(),
+            20 => self.op_restart(),
+            21 => {
+                self.op_rotate_master_key();
+                if !self.dead {
+                    self.op_restart();
                 }
             }
             17 => {
@@ -1095,6 +1096,78 @@ impl<'a> Prog<'a> {
                     self.r.count("non_grant_edges_to_secret", 1);
                     self.probe(&from, i);
                 }
+            }
+        }
+    }
+
+    /// wait until every short TTL granted so far is certainly over, then probe its holder
+    fn op_wait(&mut self) {
+        if let Some(&latest) = self.short_ttl_pending.iter().max() {
+            let until = latest + MARGIN + Duration::from_millis(5);
+            let now = Instant::now();
+            if until > now {
+                std::thread::sleep(until - now);
+            }
+            self.short_ttl_pending.clear();
+            self.trace.push("wait-past-ttl".into());
+            self.r.count("ttl_waits", 1);
+            // probe the pair that held the TTL grant with an operation that matters
+            if let Some((who, i)) = self.last_ttl_pair.clone() {
+                for _ in 0..(1 + self.rng.below(2)) {
+                    self.probe(&who, i);
+                }
+            }
+        }
+    }
+
+    /// the operator re-keys the vault; grants, expiries and contents must be unaffected
+    fn op_rotate_master_key(&mut self) {
+        let n = 12 + self.rng.below(20);
+        let pw = self.rng.bytes(n);
+        let res = self.vault.rotate_master_key(&pw);
+        self.trace.push(format!("rotate_master_key={}", okerr(&res)));
+        self.r.count("op[rotate_master_key]", 1);
+        match res {
+            Ok(_) => {
+                self.password = pw;
+                self.r.count("master_key_rotations", 1);
+            }
+            Err(e) => {
+                // a half re-keyed vault cannot be followed by the model
+                self.check_err("rotate_master_key", &e);
+                self.r.inconclusive(&format!("rotate_master_key failed: {}", err_variant(&e)));
+                self.dead = true;
+            }
+        }
+    }
+
+    /// process restart: only the store and the graph survive; the access model is carried across
+    fn op_restart(&mut self) {
+        let pending = self.model.grants.iter().filter(|g| g.state == GState::Live && g.exp.is_some()).count();
+        match Vault::new(&self.password, self.graph.clone(), self.store.clone(), self.cfg.clone()) {
+            Ok(v) => {
+                self.vault = v;
+                self.trace.push("restart".into());
+                self.r.count("restarts", 1);
+                if pending > 0 {
+                    self.r.count("restarts_with_pending_ttl_grant", 1);
+                }
+                for g in self.model.grants.iter_mut() {
+                    if let Some((lo, hi)) = g.exp {
+                        g.exp = Some((lo.checked_sub(REOPEN_SLACK).unwrap_or(lo), hi + REOPEN_SLACK));
+                    }
+                }
+                for t in self.short_ttl_pending.iter_mut() {
+                    *t += REOPEN_SLACK;
+                }
+                if !self.short_ttl_pending.is_empty() && self.rng.chance(1, 2) {
+                    self.op_wait();
+                }
+            }
+            Err(e) => {
+                self.trace.push(format!("restart={}", err_variant(&e)));
+                self.r.inconclusive(&format!("reopening the vault failed: {}", err_variant(&e)));
+                self.dead = true;
             }
         }
     }
@@ -1187,6 +1260,17 @@ impl<'a> Prog<'a> {
     }
 
     fn scan_at_rest(&mut self, with_file: bool) {
+        // whatever the vault keeps in memory and writes out on its own flush entry points belongs to
+        // the data at rest: flush before looking
+        self.vault.persist_anomaly_profiles();
+        self.r.count("flushes_before_scan", 1);
+        if with_file && self.rng.chance(1, 2) {
+            let root = self.model.root.clone();
+            match self.vault.create_snapshot(&root, "checkpoint") {
+                Ok(_) => self.r.count("vault_snapshots_created", 1),
+                Err(e) => self.check_err("create_snapshot", &e),
+            }
+        }
         let s = Searcher::new(&self.markers);
         self.r.count("at_rest_scans", 1);
         self.r.count("markers_searched", self.markers.len() as u64);
@@ -1376,9 +1460,13 @@ fn run_program(case_seed: u64, scratch: &std::path::Path, max_ops: usize, r: &mu
         cfg.argon2_parallelism = 1;
     }
     cfg.max_versions = 1 + rng.below(5);
+    if rng.bool() {
+        // behaviour profiles are then reloaded from the store when the vault is reopened
+        cfg = cfg.with_anomaly_thresholds(tensor_vault::AnomalyThresholds::default());
+    }
     let pw_len = 12 + rng.below(20);
     let pw = rng.bytes(pw_len);
-    let vault = match Vault::new(&pw, graph.clone(), store.clone(), cfg) {
+    let vault = match Vault::new(&pw, graph.clone(), store.clone(), cfg.clone()) {
         Ok(v) => v,
         Err(e) => {
             r.inconclusive(&format!("Vault::new failed: {}", err_variant(&e)));
@@ -1453,6 +1541,9 @@ fn run_program(case_seed: u64, scratch: &std::path::Path, max_ops: usize, r: &mu
         scratch,
         short_ttl_pending: Vec::new(),
         last_ttl_pair: None,
+        cfg,
+        password: pw,
+        dead: false,
     };
 
     // root creates most secrets first
@@ -1479,15 +1570,17 @@ fn run_program(case_seed: u64, scratch: &std::path::Path, max_ops: usize, r: &mu
     let scan_every = 12 + p.rng.below(10);
     for step in 0..n_ops {
         p.step();
-        if p.violations >= MAX_VIOLATIONS_PER_PROGRAM {
+        if p.violations >= MAX_VIOLATIONS_PER_PROGRAM || p.dead {
             break;
         }
         if step % scan_every == scan_every - 1 {
             p.scan_at_rest(false);
         }
     }
-    p.scan_at_rest(true);
-    p.scan_audit();
+    if !p.dead {
+        p.scan_at_rest(true);
+        p.scan_audit();
+    }
 
     let ops = p.trace.len() as u64;
     let nontrivial = p.allowed >= 5 && p.denied >= 5;
@@ -1547,7 +1640,7 @@ fn main() {
 
     let meta = Meta {
         property: "C14",
-        rule: "one program = one real Vault (own TensorStore; graph engine on the same store in 2/3 of the programs) driven by 30-60 random operations (set/get/get_version/batch_get/list/list_versions/current_version/rotate/rollback/delete/grant/grant_with_permission/grant_with_ttl/revoke/delegate/get_permission/MEMBER- and foreign-edge add/remove/waits past TTLs) by root, 3-5 users and 2-3 groups over 4-7 secrets in several namespaces, under a random AttenuationPolicy; every non-root decision is compared with the access model (only-if direction), and the store image / raw keys+fields / a saved snapshot file / audit records / error messages are searched for the unique 18+ byte cores of all secret names and values. Programs are distinct by the hash of their operation trace; a program is non-trivial when at least 5 decisions were allowed with a grant and at least 5 were denied without one.",
+        rule: "one program = one real Vault (own TensorStore; graph engine on the same store in 2/3 of the programs) driven by 30-60 random operations (set/get/get_version/batch_get/list/list_versions/current_version/rotate/rollback/delete/grant/grant_with_permission/grant_with_ttl/revoke/delegate/get_permission/MEMBER- and foreign-edge add/remove/waits past TTLs/rotate_master_key/restart = reopening the vault on the same store and graph with the access model carried across) by root, 3-5 users and 2-3 groups over 4-7 secrets in several namespaces, under a random AttenuationPolicy; every non-root decision is compared with the access model (only-if direction), and, after calling the vault's flush entry point persist_anomaly_profiles (and sometimes create_snapshot), the store image / raw keys+fields / a saved snapshot file / audit records / error messages are searched for the unique 18+ byte cores of all secret names and values. Programs are distinct by the hash of their operation trace; a program is non-trivial when at least 5 decisions were allowed with a grant and at least 5 were denied without one.",
         assumptions: vec![
             "only-if direction only: a refusal the model would have allowed is counted as over_denials, never a violation".into(),
             format!("a TTL grant counts as possibly live until (return of the granting call + ttl + {} ms); decisions inside that window are don't-care", MARGIN.as_millis()),
@@ -1555,6 +1648,7 @@ fn main() {
             "delegate is modelled by its documented contract: succeeds only if the parent holds at least the delegated level on every secret; the child then holds that level (with the TTL if given)".into(),
             "a group is an entity reached over directed MEMBER edges; edges of other types and MEMBER edges pointing at a secret node confer nothing; distance = MEMBER hops + 1, attenuated by the documented table, nothing at or beyond the horizon".into(),
             "names/values shorter than 16 bytes are exercised but not searched for (a match could be accidental); encodings searched: verbatim, lowercase hex, base64".into(),
+            format!("TTL grants that crossed a reopen get {} ms more don't-care on each side (the persisted deadline is rebuilt from wall-clock stamps)", REOPEN_SLACK.as_millis()),
             "argon2 parameters are reduced to the minimum in 9 of 10 programs (key derivation is not under observation)".into(),
         ],
         floors: if args.replay.is_some() {
@@ -1568,6 +1662,9 @@ fn main() {
                 ("expired_ttl_decisive", args.by_tier(40, 800)),
                 ("at_rest_scans", args.by_tier(400, 8_000)),
                 ("snapshot_files_scanned", args.by_tier(100, 2_000)),
+                ("restarts", args.by_tier(100, 2_000)),
+                ("restarts_with_pending_ttl_grant", args.by_tier(30, 600)),
+                ("master_key_rotations", args.by_tier(60, 1_200)),
                 ("audit_records_checked", args.by_tier(10_000, 200_000)),
                 ("error_messages_checked", args.by_tier(1_500, 30_000)),
             ]
